@@ -24,13 +24,14 @@ var propTable = map[string]*propSpec{
 	},
 	"C01": {
 		ID:    "C01",
-		Rules: []string{"R-REGTABLE", "R-BITS", "R-DISPATCH", "R-NILNIL", "R-SCOPE", "R-PRIVREG"},
+		Rules: []string{"R-REGTABLE", "R-BITS", "R-DISPATCH", "R-NILNIL", "R-SCOPE", "R-PRIVREG", "R-PAREN"},
 		Explanation: "Decides structural necessary conditions of 'compiled programs behave as the manual prescribes' — the agreements between the stages of the compile pipeline that must hold for every program, each of which, if broken, miscompiles some program: " +
 			"(R-BITS) every opcode field written by a code.mkType* constructor is read back bit-for-bit by its Get* decoder, fields are disjoint from each other and from the type prefix (symbolic bit-vector evaluation of the constructors and decoders); " +
 			"(R-DISPATCH) every operator constant an emitter can produce has a case in the interpreter loop, ircomp's operator maps send each ops.Op to the code operator of the same name and are total over what astcomp lets through, each interpreter case calls the runtime function of that operator, the Cont/Callable type switches name every implementer, and the compile-time processor witnesses exist; " +
 			"(R-NILNIL) no Lua-callable Go function returns (nil, nil), which the interpreter takes for 'finished'; " +
 			"(R-SCOPE) leaving a scope — by falling out of it, by break or by goto — emits a clear for every register captured as an upvalue, and the VM's clear installs a fresh cell (fresh variables per loop iteration); " +
-			"(R-PRIVREG) a register holding a value the program cannot name is never captured and never handed out twice.",
+			"(R-PRIVREG) a register holding a value the program cannot name is never captured and never handed out twice; " +
+			"(R-PAREN) parentheses truncate every multi-valued expression type (call, '...') to one value.",
 		NotDecided: "agreement of the implemented semantics with the manual's over all programs (values, evaluation order, the push/receive call protocol, register allocation correctness in general, jump resolution, metamethod selection and coercions): these quantify over program behaviour and are out of reach of a static argument here.",
 		Assumptions: []string{
 			"the frozen tables (operator ↔ runtime function, token ↔ operator) were transcribed from the manual and the code and confirmed by reading",
@@ -39,7 +40,7 @@ var propTable = map[string]*propSpec{
 	},
 	"C12": {
 		ID:    "C12",
-		Rules: []string{"R-PREC", "R-LITERAL", "R-BLAME", "R-SCANPOS"},
+		Rules: []string{"R-PREC", "R-LITERAL", "R-BLAME", "R-SCANPOS", "R-PAREN"},
 		Explanation: "Decides the table-shaped and shape-visible part of 'the front end accepts Lua 5.4 syntax and decodes it faithfully': (R-PREC) the scanner's keyword and symbol maps are exactly the manual's, the parser's operator maps send each token to the operator of the same symbol and cover exactly the tokens the scanner classifies as operators, ops.Op.Precedence orders all 300 operator pairs as §3.4.8, and the associativity exceptions are exactly .. and ^; " +
 			"(R-LITERAL) literal decoding never indexes past the token's bytes (an empty long string is valid); (R-BLAME) a syntax error raised after a failed test of a token's type blames that token, so the reported line is the offending token's; (R-SCANPOS) the scanner's cursor is moved only by next()/backup(), where lines are counted and line ends normalised.",
 		NotDecided:  "that every valid chunk is accepted (the grammar as a whole), the denotation of numerals and escape sequences (value-level: e.g. 9223372036854775808 is read as an integer), multi-value truncation by parentheses, line-end normalisation, spelling invariance.",
